@@ -1,5 +1,6 @@
 import PonyVerif.Drive.Util
 import PonyVerif.Model.Validate
+import PonyVerif.Gen.IntBounds
 namespace PonyVerif.Drive.C08
 open Lean PonyVerif.Drive PonyVerif.Model.Validate
 
@@ -106,6 +107,11 @@ def handle (j : Json) : Except String Json := do
     | .error e => pure (Json.mkObj [("error", .str e)])
     | .ok c => pure (Json.mkObj [("ok", Json.mkObj [("min", jOptInt c.minVal), ("max", jOptInt c.maxVal),
                                                      ("size", jOptInt c.size), ("unsigned", jsonOfOptBool c.unsigned)])])
+  | "gen_int_init" =>
+    -- the code regenerated from IntConverter.init (tail) on the option values as Python values
+    pure (jsonOfPyM (PonyVerif.Gen.intInitTail (← argPy j "size") (← argPy j "unsigned") (← argPy j "min") (← argPy j "max")))
+  | "gen_int_validate" =>
+    pure (jsonOfPyM (PonyVerif.Gen.intValidateTail (← argPy j "val") (← argPy j "min_val") (← argPy j "max_val")))
   | "strip" =>
     let s ← argStr j "s"
     pure (Json.mkObj [("ok", cpJson (strip s.toList))])
